@@ -374,3 +374,34 @@ Proof.
   - cbn. repeat constructor; cbn; intuition discriminate.
   - vm_compute. discriminate.
 Qed.
+
+(* ---------------------------------------------------------------- 6. portfolio weights *)
+
+Definition entries_equiv (r1 r2 : wresult (list entry)) : Prop :=
+  match r1, r2 with
+  | WOk a, WOk b => Permutation a b
+  | WPanic, WPanic => True
+  | _, _ => False
+  end.
+
+Lemma entries_equiv_refl r : entries_equiv r r.
+Proof. destruct r; cbn; auto. Qed.
+
+Lemma entries_equiv_trans r1 r2 r3 : entries_equiv r1 r2 -> entries_equiv r2 r3 -> entries_equiv r1 r3.
+Proof. destruct r1, r2, r3; cbn; try tauto. apply perm_trans. Qed.
+
+(* `for c, v := range V1 { r.Add(path(c), date, v/total) }`: the same calls in any order (the
+   total is the exact sum here; Go adds float64 in map order, see LEVEL_NOTE) *)
+Theorem day_entries_perm u m date total v1 v1' :
+  Permutation v1 v1' -> entries_equiv (day_entries u m date total v1) (day_entries u m date total v1').
+Proof.
+  intros P. induction P as [|[c v] l l' P IH|[c1 x1] [c2 x2] l|l l' l'' P1 IH1 P2 IH2].
+  - cbn. constructor.
+  - cbn [day_entries]. destruct (map_path m (locate u c)); [|exact I].
+    destruct (day_entries u m date total l), (day_entries u m date total l'); cbn in *; try tauto.
+    constructor. exact IH.
+  - cbn [day_entries].
+    destruct (map_path m (locate u c1)), (map_path m (locate u c2));
+      destruct (day_entries u m date total l); cbn; auto. apply perm_swap.
+  - eapply entries_equiv_trans; eassumption.
+Qed.
